@@ -155,7 +155,7 @@ def run(ctx):
     reps = vrun.verify(DC.KEYS_LM, DC.CONTRACTS, root=core.repo_root(), both=thorough)
     ctx.add_proof_reports(reps, clause='LM bookkeeping invariant of the beam loop: LM score = the LM\'s own score of the prefix, whatever the route')
     ctx.trusted += ['ASSUMED contract of the LM object: initial_h / log_probs / advance_h0 / eos_scores act item-wise on a batch and are deterministic functions of state (and symbol); log_probs has one column per non-blank symbol',
-                    'ASSUMED contracts as in C02: multisort.top_k, the pre-selection callable, blank probability non-zero per frame',
+                    'as in C02: multisort.top_k proved there (its counting consequence in Lean); ASSUMED: the pre-selection callable returns increasing positions, blank probability non-zero per frame',
                     'decoder proved for init_h = None; build_boh is opaque in the decoder proof']
     import numpy as np
     from pero_ocr.decoding import decoders as D
